@@ -26,22 +26,24 @@ type Run struct {
 	Seed  int64
 	start time.Time
 
-	mu            sync.Mutex
-	evaluations   int
-	distinct      map[uint64]struct{}
-	distinctExtra int
-	rule          string
-	samples       []any
-	observed      map[string]any
-	counters      map[string]int
-	inconclusive  map[string]int
-	assumptions   []string
-	exhaustive    *bool
-	violations    []Violation
-	known         map[string]int
-	kf            *KnownFindings
-	maxSamples    int
-	NoEvidence    bool
+	mu             sync.Mutex
+	evaluations    int
+	distinct       map[uint64]struct{}
+	distinctExtra  int
+	rule           string
+	samples        []any
+	observed       map[string]any
+	counters       map[string]int
+	inconclusive   map[string]int
+	assumptions    []string
+	exhaustive     *bool
+	violations     []Violation
+	known          map[string]int
+	kf             *KnownFindings
+	maxSamples     int
+	NoEvidence     bool
+	TooManyRejects bool
+	rejects        map[string]int
 }
 
 type Violation struct {
@@ -94,6 +96,18 @@ func (r *Run) Distinct(key string) {
 // DistinctN adds n cases that are distinct and non-trivial by construction
 // (used where hashing every case would cost more than running it).
 func (r *Run) DistinctN(n int) { r.mu.Lock(); r.distinctExtra += n; r.mu.Unlock() }
+
+// NoteReject records why the Go compiler refused a generated program.
+func (r *Run) NoteReject(msg string) {
+	r.mu.Lock()
+	if r.rejects == nil {
+		r.rejects = map[string]int{}
+	}
+	if len(r.rejects) < 40 {
+		r.rejects[msg]++
+	}
+	r.mu.Unlock()
+}
 
 func (r *Run) Count(k string, n int) { r.mu.Lock(); r.counters[k] += n; r.mu.Unlock() }
 func (r *Run) Counter(k string) int  { r.mu.Lock(); defer r.mu.Unlock(); return r.counters[k] }
@@ -165,6 +179,9 @@ func (r *Run) Finish() int {
 		cov["observed"] = r.observed
 	}
 	cov["inconclusive"] = r.inconclusive
+	if len(r.rejects) > 0 {
+		cov["rejected_by_go_reasons"] = r.rejects
+	}
 	if len(r.known) > 0 {
 		cov["known_findings_hit"] = r.known
 	}
@@ -195,6 +212,12 @@ func (r *Run) Finish() int {
 		fmt.Printf("KNOWN-FINDING: property=%s %s (seen %d times; id=%s)\n", r.ID, f.What, r.known[id], id)
 	}
 
+	// replay files of an earlier run with the same tier and seed are stale now
+	if old, _ := filepath.Glob(filepath.Join(root, "violations", r.ID, fmt.Sprintf("%s-seed%d-*.json", r.Tier, r.Seed))); len(old) > 0 {
+		for _, f := range old {
+			os.Remove(f)
+		}
+	}
 	if len(r.violations) > 0 {
 		dir := filepath.Join(root, "violations", r.ID)
 		os.MkdirAll(dir, 0o755)
@@ -214,6 +237,10 @@ func (r *Run) Finish() int {
 			fmt.Printf("  (%d further violations not written)\n", len(r.violations)-max)
 		}
 		return 1
+	}
+	if r.TooManyRejects {
+		fmt.Printf("INCONCLUSIVE property=%s: more than 5%% of the generated programs were rejected by the Go compiler\n", r.ID)
+		return 2
 	}
 	if len(r.distinct)+r.distinctExtra < 2 || r.evaluations < 1 {
 		fmt.Printf("INCONCLUSIVE property=%s: the run observed nothing (evaluations=%d distinct=%d)\n", r.ID, r.evaluations, len(r.distinct)+r.distinctExtra)
